@@ -12,5 +12,6 @@ CONSTANTS
   ScsSids = {0}
   ReaderScsAnySid = TRUE
   LazyFlushTypes = {}
+  NoSharedState = TRUE
 INVARIANTS NoDesync PrefixOk InFollowsOut AllDelivered Flushed Emit
 CHECK_DEADLOCK FALSE
